@@ -149,7 +149,7 @@ fn apply(objs: &[(u64, Val)], muts: &[Mutation]) -> Vec<(u64, Val)> {
 }
 
 fn boundary_numbers() -> Vec<(&'static str, Val)> {
-    vec![("-1", Val::Int(-1)), ("0", Val::Int(0)), ("1", Val::Int(1)), ("2^31-1", Val::Int(2147483647)), ("2^32-1", Val::Int(4294967295)), ("2^64-1", Val::Real("18446744073709551615".into())), ("-2^31", Val::Int(-2147483648)), ("65536", Val::Int(65536))]
+    vec![("-1", Val::Int(-1)), ("0", Val::Int(0)), ("1", Val::Int(1)), ("2", Val::Int(2)), ("3", Val::Int(3)), ("16", Val::Int(16)), ("2^31-1", Val::Int(2147483647)), ("2^32-1", Val::Int(4294967295)), ("2^64-1", Val::Real("18446744073709551615".into())), ("-2^31", Val::Int(-2147483648)), ("65536", Val::Int(65536))]
 }
 
 fn run_case(base: usize, objs: &[(u64, Val)], muts: &[Mutation], t: &mut Tally, engine: &str, replay: Value) {
@@ -318,7 +318,8 @@ pub fn run(tier: Tier, _seed: u64, tally: &mut Tally) -> CheckMeta {
     for base in 0..nbases {
         let objs = base_objects(base);
         // unmutated base must walk cleanly
-        run_case(base, &objs, &[], tally, "c14.base", json!({"engine": "c14.base", "base": base}));
+        // (same engine name as the mutations so that a failure of the base subsumes the failures of everything derived from it)
+        run_case(base, &objs, &[], tally, "c14.mutation", json!({"engine": "c14.base", "base": base}));
         let all_nrs: Vec<u64> = objs.iter().map(|(n, _)| *n).collect();
         // single re-wirings: every reference occurrence -> every object of the document, a free number, a number beyond /Size
         let mut muts: Vec<Mutation> = vec![];
@@ -431,7 +432,7 @@ pub fn run(tier: Tier, _seed: u64, tally: &mut Tally) -> CheckMeta {
     CheckMeta {
         prop: "C14",
         level: "fault_enumeration",
-        rule: format!("base documents {:?} (rich document + indirect /Length, functions of types 0/2/4, Separation/DeviceN/nested Indexed/ICC colour spaces, CCITT image, soft mask, embedded-files name tree, number tree with kids, field hierarchy); single faults: every one of {} reference occurrences re-pointed at every object of the document, an undefined number, 0 and a number beyond /Size, and every one of {} integer occurrences set to each of {{-1, 0, 1, 2^31-1, 2^32-1, 2^64-1, -2^31, 65536}}; double faults: all pairs of re-wirings inside 9 structural fragments; {} special structures (/Prev loops, nesting 20..200000, object streams containing/extending themselves, xref stream /W /Index /Size and classic table boundary values, PostScript roll/index/copy operands). Every case x {{strict, tolerant}} x {{cached, uncached}} is walked completely (C01 walker incl. scan and function application) in a worker process: no panic, no crash (stack overflow, abort, OOM under a 3 GiB address-space limit), no call exceeding 10 s. Distinct by file hash x configuration.", &BASES[..nbases], n_ref_fields, n_int_fields, specials.len()),
+        rule: format!("base documents {:?} (rich document + indirect /Length, functions of types 0/2/4, Separation/DeviceN/nested Indexed/ICC colour spaces, CCITT image, soft mask, embedded-files name tree, number tree with kids, field hierarchy); single faults: every one of {} reference occurrences re-pointed at every object of the document, an undefined number, 0 and a number beyond /Size, and every one of {} integer occurrences set to each of {{-1, 0, 1, 2, 3, 16, 2^31-1, 2^32-1, 2^64-1, -2^31, 65536}}; double faults: all pairs of re-wirings inside 9 structural fragments; {} special structures (/Prev loops, nesting 20..200000, object streams containing/extending themselves, xref stream /W /Index /Size and classic table boundary values, PostScript roll/index/copy operands). Every case x {{strict, tolerant}} x {{cached, uncached}} is walked completely (C01 walker incl. scan and function application) in a worker process: no panic, no crash (stack overflow, abort, OOM under a 3 GiB address-space limit), no call exceeding 10 s. Distinct by file hash x configuration.", &BASES[..nbases], n_ref_fields, n_int_fields, specials.len()),
         assumptions: vec!["time and memory proportionality is decided only against fixed generous thresholds (10 s, 3 GiB) - three orders of magnitude above the normal cost of these ~10 KB documents".into()],
         exhaustive: true,
         bounds: json!({"faults": 2}),
